@@ -5,13 +5,14 @@
 //!
 //! Scenario (right of `|`): environment of `<env fixture>` (max_transaction_size lifted to 16384, block slot
 //! optionally replaced), initial certificate state = `-` (empty) or the union of the members' fixture states,
-//! UTxO = union of the members' fixture UTxOs, members = fixtures (Shelley-MA with and without certificates, Alonzo)
+//! UTxO = union of the members' UTxOs, members = fixtures (Shelley-MA with and without certificates, Alonzo) or
+//! `S.<id>.<certs>` = synthesized, own-key Mary transactions with stake-key registrations / deregistrations,
 //! optionally invalidated: `~badsig` (one signature bit flipped: fails in the witness rule, *after* the certificates
 //! were applied to the working state), `~nowits` (witnesses dropped), `~noutxo` (its inputs removed from the UTxO:
 //! fails before the certificates). Left of `|`: what single `validate_tx` calls do along the path (digests of the
 //! canonical `CertState` dump) — the `step` parameter of the Lean model.
 //! replies: ok <digest after> | err <class> <digest after> | panic
-use crate::fixtures::{self, params, txparts, Fixture, UtxoEntry};
+use crate::fixtures::{self, params, synth, txparts, Fixture, UtxoEntry};
 use crate::fw::*;
 use pallas_crypto::hash::Hasher;
 use pallas_traverse::{Era, MultiEraTx};
@@ -67,7 +68,7 @@ fn build(toks: &[String]) -> Option<Scenario> {
     let (mut utxo, mut txs, mut removed): (Vec<UtxoEntry>, _, Vec<String>) = (vec![], vec![], vec![]);
     for m in &toks[3..] {
         let (name, mutation) = m.split_once('~').unwrap_or((m.as_str(), ""));
-        let f = fixtures::by_name(name)?;
+        let f = if let Some(spec) = name.strip_prefix("S.") { synth_member(spec)? } else { fixtures::by_name(name)? };
         if toks[2] == "union" { merge_state(&mut init, &f.cert_state); }
         for e in &f.utxo { if !utxo.iter().any(|u: &UtxoEntry| u.input == e.input) { utxo.push(e.clone()); } }
         let mut cbor = f.tx_cbor.clone();
@@ -87,6 +88,47 @@ fn build(toks: &[String]) -> Option<Scenario> {
     }
     utxo.retain(|u| !removed.contains(&u.input.show()));
     Some(Scenario { env, init, utxo, txs })
+}
+
+/// `S.<id>.<r|d><seed>...`: a Mary transaction built with own keys (input number `<id>` locked by key 100) carrying the
+/// listed stake-key certificates (`r` = registration, `d` = deregistration of the credential of key `<seed>`), outputs
+/// balanced against the 2 ADA key deposit / refund, fee 300000
+fn synth_member(spec: &str) -> Option<Fixture> {
+    let mut parts = spec.split('.');
+    let id: usize = parts.next()?.parse().ok()?;
+    let mut certs = vec![];
+    for c in parts {
+        let seed: u8 = c[1..].parse().ok()?;
+        certs.push(match &c[..1] { "r" => synth::SCert::Reg(seed), "d" => synth::SCert::Dereg(seed), _ => return None });
+    }
+    let regs = certs.iter().filter(|c| matches!(c, synth::SCert::Reg(_))).count() as u64;
+    let deregs = certs.len() as u64 - regs;
+    let coin = |c: u64| synth::SValue { multi: false, coin: c, groups: vec![] };
+    let t = synth::SynthTx {
+        era: Era::Mary,
+        inputs: vec![(100, coin(50_000_000))],
+        outputs: vec![coin(50_000_000 - 300_000 - 2_000_000 * regs + 2_000_000 * deregs)],
+        fee: 300_000,
+        mint: None,
+        required_signers: None,
+        certs,
+        witnesses: None,
+    };
+    let mut f = synth::build(&t);
+    // distinct UTxO entry per member id: re-key the single input
+    let parts = txparts::split_fixture(&f);
+    let mut body = parts.body.clone();
+    let pat = [1u8; 32];
+    let pos = body.windows(32).position(|w| w == pat)?;
+    for b in &mut body[pos..pos + 32] { *b = 0x80 + id as u8; }
+    // the body changed: sign again
+    let txid = pallas_crypto::hash::Hasher::<256>::hash(&body);
+    let k = synth::key(100);
+    let mut w = pallas_codec::minicbor::Encoder::new(Vec::new());
+    w.map(1).unwrap().u8(0).unwrap().array(1).unwrap().array(2).unwrap().bytes(&k.pk).unwrap().bytes(k.sk.sign(txid.as_ref()).as_ref()).unwrap();
+    f.tx_cbor = txparts::assemble(&txparts::TxParts { body, wits: w.into_writer(), aux: None, valid: true });
+    if let fixtures::InputRef::Post(i) = &mut f.utxo[0].input { i.transaction_id = [0x80 + id as u8; 32].into(); }
+    Some(f)
 }
 
 /// single `validate_tx` calls along the path: (table text, k)
@@ -124,8 +166,14 @@ pub fn generate(g: &mut Gen) {
             let mut members: Vec<String> = vec![];
             let mut min_slot = u64::MAX;
             for _ in 0..n {
-                let name = if g.rng.chance(1, 20) || (alonzo_env && g.rng.chance(1, 2)) { *g.rng.pick(&ALONZO) } else if g.rng.chance(1, 2) { *g.rng.pick(&CERTS) } else { *g.rng.pick(&SHELLEY) };
                 let m = match g.rng.below(12) { 0 | 1 => "~badsig", 2 => "~nowits", 3 => "~noutxo", _ => "" };
+                if g.rng.chance(1, 2) {
+                    // synthesized stake-key certificate transaction over a small pool of credentials (repeats collide on purpose)
+                    let certs: Vec<String> = (0..[1u64, 1, 1, 1, 2, 2, 3][g.rng.below(7) as usize]).map(|j| format!("{}{}", if j == 0 && g.rng.chance(5, 6) || g.rng.chance(1, 2) { "r" } else { "d" }, 1 + g.rng.below(6))).collect();
+                    members.push(format!("S.{}.{}{m}", members.len(), certs.join(".")));
+                    continue;
+                }
+                let name = if g.rng.chance(1, 20) || (alonzo_env && g.rng.chance(1, 2)) { *g.rng.pick(&ALONZO) } else if g.rng.chance(1, 2) { *g.rng.pick(&CERTS) } else { *g.rng.pick(&SHELLEY) };
                 min_slot = min_slot.min(fixtures::by_name(name).map(|f| f.env.block_slot).unwrap_or(u64::MAX));
                 members.push(format!("{name}{m}"));
             }
